@@ -223,7 +223,7 @@ func init() {
 		Cases: func(seed uint64, tier string) []Case {
 			n := 40
 			if !quick(tier) {
-				n = 600
+				n = 300
 			}
 			var cs []Case
 			for i := 0; i < n; i++ {
